@@ -13,6 +13,11 @@
   `symmetric_smoothing` slice of `change_smoothers`; theorems in Props/C04.lean and Props/C05.lean are about
   these generated definitions.
 
+* (harness/py2lean2.py, Generated/PyLogic2.lean, extension E42) whole functions with the numerical work abstracted as
+  events: `coarse_grid_solver` (+ its nested `GenericSolver.__call__` and `solve` closures), `MultilevelSolver.solve`,
+  `solver_configuration`; theorems in Props/C16.lean, Props/C08.lean and Props/C01.lean are about these generated
+  definitions.
+
 `Model/Facts.lean` holds the same tables as the models assume them (pinned, committed; written with
 `translate.py --pin`).  `Props/Cxx.lean` proves `Facts.t = Generated.t` by `decide`, so a silently
 changed table, default or signature breaks a proof obligation of exactly the properties that depend
